@@ -2245,9 +2245,15 @@ func (db *DB) Drop(ctx context.Context) (err error) {
 		return fmt.Errorf("delete shm file: %w", err)
 	}
 
-	// Reset database & WAL information.
+	// Reset database & WAL information. The page size and page checksums
+	// belong to the deleted file; a database recreated under the same name
+	// may use a different page size.
 	db.mode.Store(DBModeRollback)
 	db.pageN.Store(0)
+	db.pageSize = 0
+	db.chksums.mu.Lock()
+	db.chksums.pages, db.chksums.blocks = nil, nil
+	db.chksums.mu.Unlock()
 	db.wal.offset = 0
 	db.wal.chksum1 = 0
 	db.wal.chksum2 = 0
@@ -2551,6 +2557,13 @@ func (db *DB) ApplyLTXNoLock(path string, fatalOnError bool) (retErr error) {
 			_ = invalidator.InvalidateEntry(db.Name() + "-wal")
 			_ = invalidator.InvalidateEntry(db.Name() + "-shm")
 		}
+
+		// Forget the page size and page checksums of the deleted file so the
+		// database can be recreated with a different page size.
+		db.pageSize = 0
+		db.chksums.mu.Lock()
+		db.chksums.pages, db.chksums.blocks = nil, nil
+		db.chksums.mu.Unlock()
 	}
 
 	trailer = dec.Trailer()
